@@ -348,7 +348,7 @@ Definition valid_op (o : op) : Prop :=
 
 Lemma step_preserves_inv st o : Inv st -> valid_op o -> Inv (fst (step st o)).
 Proof.
-  intros HI Hv. destruct o as [d|t|t|lo hi|id| |ts]; cbn [step].
+  intros HI Hv. destruct o as [d|t|t|lo hi|id| |ts| ]; cbn [step].
   - destruct HI as (HD & HG & _). unfold Inv; cbn. auto.
   - pose proof (create_preserves_inv st t HI Hv). destruct (client_create st t); exact H.
   - exact HI.
@@ -357,12 +357,36 @@ Proof.
     eapply delete_preserves_inv; eauto.
   - apply reload_preserves_inv; exact HI.
   - destruct (write_routes_all st ts HI Hv) as (st' & lst & E & HI' & _). rewrite E. exact HI'.
+  - exact HI.
 Qed.
 
 Lemma final_inv ops : forall st, Inv st -> Forall valid_op ops -> Inv (final st ops).
 Proof.
   induction ops as [|o r IH]; intros st HI HV; cbn; [exact HI|].
   inversion HV; subst. apply IH; [apply step_preserves_inv|]; assumption.
+Qed.
+
+(** with injected store failures: every step either behaves like [step] or leaves
+    the state unchanged (a failed commit is atomic) *)
+Lemma step_f_cases st f o :
+  fst (fst (step_f (st, f) o)) = fst (step st o) \/ fst (fst (step_f (st, f) o)) = st.
+Proof.
+  unfold step_f. destruct o as [d|t|t|lo hi|id| |ts| ]; destruct f; cbn [negb];
+    try (destruct (step st _) as [st' r]; left; reflexivity); try (right; reflexivity).
+  - destruct (by_timestamp (st_gs st) t); [|right; reflexivity].
+    destruct (step st (OCreate t)); left; reflexivity.
+  - destruct (existsb _ (st_gs st)); right; reflexivity.
+  - destruct (forallb _ ts); [|right; reflexivity].
+    destruct (step st (OWrite ts)); left; reflexivity.
+Qed.
+
+Lemma final_f_inv ops : forall st f, Inv st -> Forall valid_op ops -> Inv (fst (final_f (st, f) ops)).
+Proof.
+  induction ops as [|o r IH]; intros st f HI HV; cbn [final_f]; [exact HI|].
+  inversion HV; subst. destruct (step_f (st, f) o) as [[st' f'] ob] eqn:E. cbn [fst].
+  apply IH; [|assumption].
+  pose proof (step_f_cases st f o) as C. rewrite E in C. cbn [fst] in C.
+  destruct C as [-> | ->]; [apply step_preserves_inv; assumption|exact HI].
 Qed.
 
 Lemma init_inv d : 0 < d -> Inv (init d).
